@@ -4,7 +4,7 @@
    decided on the key lists GENERATED from gmm.py on this run. *)
 From Coq Require Import List Bool Arith Lia.
 From Coq Require Import String.
-From BLE Require Import Generated.Facts.
+From BLE Require Import Generated.Facts Proofs.FactsDefs.
 Import ListNotations.
 Local Open Scope string_scope.
 Local Open Scope list_scope.
@@ -18,8 +18,6 @@ Definition h5_read (v : hval) : hval := match v with HStr s => HBytes s | _ => v
 Definition decode (v : hval) : hval := match v with HBytes s => HStr s | _ => v end.
 Fixpoint lookup (k : string) (st : store) : option hval :=
   match st with [] => None | (k', v) :: r => if String.eqb k k' then Some v else lookup k r end.
-Fixpoint assoc {B} (k : string) (l : list (string * B)) : option B :=
-  match l with [] => None | (k', v) :: r => if String.eqb k k' then Some v else assoc k r end.
 
 (* the writer: key k receives the value of attribute a, for every (k, a) in [written]; None is not stored *)
 Definition save (written : list (string * string)) (attrs : string -> hval) : store :=
@@ -89,37 +87,6 @@ Theorem literal_not_restored ctor decoded st arg lit :
   assoc arg ctor = Some ("literal", lit) -> load_arg ctor decoded st arg = None.
 Proof. intros H. unfold load_arg. rewrite H. reflexivity. Qed.
 End H5.
-
-(* ------------------------------------------------------------------ obligations on the generated lists *)
-Definition str_in (x : string) (l : list string) : bool := existsb (String.eqb x) l.
-Definition bound_to_own_key (ctor : list (string * (string * string))) (written : list (string * string)) (arg : string) : bool :=
-  match assoc arg ctor with
-  | Some (kind, k) => andb (String.eqb kind "key") (existsb (fun ka => andb (String.eqb (fst ka) k) (String.eqb (snd ka) arg)) written)
-  | None => false
-  end.
-Fixpoint nodup_b (l : list string) : bool := match l with [] => true | x :: r => andb (negb (str_in x r)) (nodup_b r) end.
-Fixpoint index_of (x : string) (l : list string) (i : nat) : option nat :=
-  match l with [] => None | y :: r => if String.eqb x y then Some i else index_of x r (S i) end.
-
-(* every training setting the file records *)
-Definition recorded_settings : list string :=
-  ["n_gaussians"; "trainer"; "convergence_threshold"; "max_fitting_steps"; "weights"; "update_means"; "update_variances"; "update_weights"]%string.
-Definition gmm_settings_ok : bool := forallb (bound_to_own_key h5_gmm_ctor h5_gmm_written) recorded_settings.
-Definition gmm_keys_all_read : bool := forallb (fun ka => str_in (fst ka) h5_gmm_read) h5_gmm_written.
-Definition gmm_keys_nodup : bool := nodup_b (map fst h5_gmm_written).
-(* parameters assigned after construction: means, floors BEFORE variances (the variances setter clamps to the current floors) *)
-Definition gmm_floors_before_variances : bool :=
-  match index_of "variance_thresholds" (map fst h5_gmm_post) 0, index_of "variances" (map fst h5_gmm_post) 0, index_of "means" (map fst h5_gmm_post) 0 with
-  | Some i, Some j, Some _ => Nat.ltb i j
-  | _, _, _ => false
-  end.
-Definition gmm_post_from_own_keys : bool := forallb (fun ak => String.eqb (fst ak) (snd ak)) h5_gmm_post.
-Definition stats_fields_ok : bool :=
-  andb (forallb (fun ka => str_in (fst ka) h5_stats_read) h5_stats_written)
-  (andb (nodup_b (map fst h5_stats_written))
-        (forallb (fun a => existsb (fun ak => andb (String.eqb (fst ak) a)
-                     (existsb (fun ka => andb (String.eqb (fst ka) (snd ak)) (String.eqb (snd ka) a)) h5_stats_written)) h5_stats_post)
-                 ["log_likelihood"; "t"; "n"; "sum_px"; "sum_pxx"]%string)).
 
 Theorem generated_h5_obligations :
   extraction_error = false /\ gmm_settings_ok = true /\ gmm_keys_all_read = true /\ gmm_keys_nodup = true
